@@ -42,6 +42,8 @@ class C10(F.Spec):
             yield self.tilt_retarget(rng, i)
         for i in range(n):
             yield self.ticks(rng, i)
+        for i in range(n):
+            yield self.fbticks(rng, i)
 
     @staticmethod
     def run_until_idle(ops, total_ms, step=100):
@@ -238,6 +240,86 @@ class C10(F.Spec):
         return F.Case("ticks%d" % i, ops, {"kind": "ticks", "fo": fo, "fc": fc, "margin": mm, "sensor": sensor, "noshrink": True,
                                            "tags": ["kind:ticks", "margin:%d" % mm, "sensor:%d" % sensor]})
 
+    def fbticks(self, rng, i):
+        """facade blind, constant sensor, hand-driven accounting callbacks: every callback is replayed through the Lean blind model"""
+        while True:
+            tt = rng.choice([1, 1, 2, 3])
+            fo = 100 * rng.randint(30, 400)
+            fc = rng.choice([fo, 100 * rng.randint(30, 400)])
+            tms = 100 * rng.randint(3, 25)
+            if tms * 3 >= min(fo, fc):
+                continue
+            m = rng.choice([-1, -1, 0, 1, 30, 50, 100])
+            mm = 110 if m < 0 else m
+            if all(int(F_ * (1.0 * mm / 100.0)) == F_ * mm // 100 for F_ in (fo, fc)):
+                break
+        sensor = rng.choice([1, 2])
+        p = rng.choice([100, 10100, 5000, rng.randint(100, 10100)])
+        tl = rng.choice([100, 10100, rng.randint(100, 10100)])
+        if tt == 3 and p < 10100:
+            tl = 100
+        ops = ["boot %d" % rng.choice([12345, rng.getrandbits(32) | 1]), "board rs1 0", "motor %d 0 1 1" % sensor,
+               "init", "calllog 1", "rslog 1", "rstimes 0 %d %d %d %d" % (fo, fc, tms, tt), "rspos 0 %d %d" % (p, tl), "rsmargin 0 %d" % m, "rsmanual 0", "adv 1500",
+               "rstick 0 10000", "rstick 0 0"]
+        dur = ((fo // 100) << 16) | (fc // 100)
+        for _ in range(rng.randint(1, 3)):
+            c = rng.choice(["task", "task", "task", "tilt", "tilt", "up", "down"])
+            if c == "task":
+                g = rng.choice([0, 100, 50, rng.randint(0, 100)])
+                gt = rng.choice([-1, 0, 100, rng.randint(0, 100)])
+                ops.append("msg 110 " + set_value(7, 0, dur, [10 + g, (10 + gt) if gt >= 0 else 0]).hex())
+            elif c == "tilt":
+                ops.append("msg 110 " + set_value(7, 0, dur, [255, 10 + rng.randint(0, 100)]).hex())
+            else:
+                ops.append("msg 110 " + set_value(7, 0, dur, [{"up": 2, "down": 1}[c]]).hex())
+            for _ in range(rng.randint(3, 80)):
+                ops.append("rstick 0 %d" % rng.choice([10000, 10000, 10000, 9000, 30000, 100000, 250000, rng.randint(1000, 250000)]))
+                if rng.random() < .04:
+                    # a new request while the previous one is carried out
+                    if rng.random() < .5:
+                        ops.append("msg 110 " + set_value(7, 0, dur, [255, 10 + rng.randint(0, 100)]).hex())
+                    else:
+                        ops.append("msg 110 " + set_value(7, 0, dur, [10 + rng.randint(0, 100), rng.choice([0, 10 + rng.randint(0, 100)])]).hex())
+            ops += ["msg 110 " + set_value(7, 0, dur, [0]).hex(), "rstick 0 10000", "adv 1100", "rstick 0 10000"]
+        return F.Case("fbticks%d" % i, ops, {"kind": "fbticks", "fo": fo, "fc": fc, "margin": mm, "sensor": sensor, "tt": tt, "tms": tms, "noshrink": True,
+                                             "tags": ["kind:fbticks", "tilt:%d" % tt]})
+
+
+    def derive_fb(self, case, raw):
+        me = case.meta
+        ops = ["fbcfg %d %d %d %d %d %d" % (me["fo"], me["fc"], me["margin"], 1 if me["sensor"] == 1 else 0, me["tt"], me["tms"])]
+        exp = [[]]
+        last_t = None; started = False; init_line=None
+        for op, g in zip(case.ops, raw):
+            t = op.split()
+            tick = [x for x in g if x.startswith("RSTICK ")]
+            if t[0] == "rstick" and tick:
+                f = dict(p.split("=") for p in tick[0].split()[2:])
+                tm = int(f["t0"])
+                rel = 2 if f["up"] == "1" else (1 if f["down"] == "1" else 0)
+                if not started:
+                    init_line = "fbstate %s %s %s %s %d %s %s" % (f["pos"], f["tilt"], f["upT"], f["downT"], rel, f["ts"], f["dir"])
+                else:
+                    if any(x.startswith("TRIGFIRE") for x in g):
+                        ops.append("fbfire"); exp.append([])
+                    ops.append("fbtick %d" % (tm - last_t))
+                    exp.append(["FT pos=%s tilt=%s rel=%d ts=%s dir=%s upT=%s downT=%s" % (f["pos"], f["tilt"], rel, f["ts"], f["dir"], f["upT"], f["downT"])])
+                last_t = tm
+            elif t[0] == "msg" and t[1] == "110":
+                if not started:
+                    ops.append(init_line); exp.append([]); started = True
+                pl = bytes.fromhex(t[2]); v, tl = pl[9], pl[10]
+                gt = tl - 10 if 10 <= tl <= 110 else -1
+                if 10 <= v <= 110:
+                    ops.append("fbtask %d %d" % (v - 10, gt))
+                elif v == 255:
+                    ops.append("fbtask -1 %d" % gt)
+                else:
+                    ops.append("fbmove %d" % {1: 1, 2: 2}.get(v, 0))
+                exp.append([])
+        return "\n".join(ops) + "\n", exp
+
+
     def fill_meta(self, case):
         """replays carry no meta: recompute it from the ops"""
         if "kind" in case.meta:
@@ -281,6 +363,8 @@ class C10(F.Spec):
     def derive_model(self, case, raw):
         self.fill_meta(case)
         me = case.meta
+        if me.get("kind") == "fbticks":
+            return self.derive_fb(case, raw)
         if me.get("kind") != "ticks":
             return "", []
         ops = ["cfg %d %d %d %d" % (me["fo"], me["fc"], me["margin"], 1 if me["sensor"] == 1 else 0)]
@@ -368,7 +452,7 @@ class C10(F.Spec):
         ivals, hist, reported, cmd_t, levels, end = self.facts(case, raw)
         # (1) nothing stays energised longer than 10 min + a reporting period (+ one accounting period)
         LIMIT = 600 * 1000000 + 200000 + 20000
-        for a, b in (ivals if me["kind"] != "ticks" else []):     # (hand-driven callbacks may be seconds apart)
+        for a, b in (ivals if me["kind"] not in ("ticks", "fbticks") else []):     # (hand-driven callbacks may be seconds apart)
             if b is None:
                 if end - a > LIMIT:
                     fs.append(F.Finding("output-left-energised", "an output was switched on at %.1f s and is still on %.1f s later" % (a / 1e6, (end - a) / 1e6)))
@@ -381,7 +465,7 @@ class C10(F.Spec):
                     fs.append(F.Finding("output-energised-too-long", "an output stayed on for %.1f s" % ((b - a) / 1e6)))
         # (1b) the time limit is the end: an output that was switched off by it is not energised again by the device itself
         # (two runs to the limit back to back are twenty minutes of power with a second's pause)
-        if me["kind"] != "ticks":
+        if me["kind"] not in ("ticks", "fbticks"):
             for k, (a, b) in enumerate(ivals):
                 if b is not None and b - a >= 598 * 1000000:
                     later = [(a2, b2) for a2, b2 in ivals[k + 1:] if not any(b <= c <= a2 for c in cmd_t)]
@@ -403,8 +487,11 @@ class C10(F.Spec):
                 else:
                     pos = hist["RsPos"][-1][1] if hist["RsPos"] else 100 + 100 * me["p0"]
                     rp = (pos - 100 + 50) // 100
-                    # one point + the travel of one 10 ms accounting period (the granularity of the estimate)
-                    tol = 1 + 100.0 * 10 / (min(me["opening"], me["closing"]) - (me["tms"] if me["tt"] in (1, 3) else 0))
+                    # one point + the travel of the 10 ms accounting periods between "target reached" and "output off" (the
+                    # granularity of the estimate): one for a roller shutter; two for a blind, whose task leaves the output on
+                    # in the callback that ends the position phase and switches over in the next one
+                    periods = 2 if me["tt"] else 1
+                    tol = 1 + 100.0 * 10 * periods / (min(me["opening"], me["closing"]) - (me["tms"] if me["tt"] in (1, 3) else 0))
                     had_tilt = any(c[1] is not None and c[1] >= 0 for c in me["cmds"])
                     if me["tt"] in (1, 2, 3) and had_tilt:
                         # tilting itself moves the position in mode 2; modes 1/3 keep it (a re-target without a tilt
@@ -448,7 +535,7 @@ class C10(F.Spec):
             else:
                 if last[0] == "stop" and still_on:
                     fs.append(F.Finding("stop-ignored", "outputs still on after a stop command"))
-        elif me["kind"] == "ticks":
+        elif me["kind"] in ("ticks", "fbticks"):
             pass
         elif me["kind"] == "autocal":
             flags = hist["RsFlags"][-1][1] if hist["RsFlags"] else 0
